@@ -817,9 +817,16 @@ def fp_cond_text(p):
     return fp.cond_text(p, 4)
 
 
-def must_call_before_return(g, callee):
+def must_call_before_return(g, callee, _depth=0):
     dom = _cfg.dominators(g)
     blocks = set(x.block.label for x in g.calls(callee))
+    if _depth < 3:
+        # a helper of the same unit that itself cannot return without making the call counts like the call
+        for x in g.calls():
+            n_ = x.callee_name()
+            h_ = g.module.funcs.get(n_) if n_ else None
+            if h_ is not None and h_ is not g and n_ != callee and must_call_before_return(h_, callee, _depth + 1):
+                blocks.add(x.block.label)
     if not blocks:
         return False
     structural = True
